@@ -401,8 +401,8 @@ pub fn run(cfg: &Cfg, rep: &mut Report) {
                         expect_err = true;
                         cname = "foreign-character";
                     }
-                    3 if i > 0 && (t[0] == b'-' || t[0] == b'+' || t[0] == b'.') => {
-                        // missing separator: the entry starts with a sign or a point so that the text stays two numbers
+                    3 if i > 0 && (t[0] == b'-' || t[0] == b'+') => {
+                        // missing separator: the entry starts with a sign so that the text stays two numbers
                         sep = false;
                         expect_entries.truncate(i);
                         expect_err = true;
